@@ -570,3 +570,60 @@ Example C01_session_example_rs_by_theorem : forall closable fti,
   session_meta_delivered_rs exs_cfg false exs_now exsr_m exr_content exs_rcfg r cx.
 Proof. exact exsr_by_theorem. Qed.
 (* ===== end block: C01RS ===== *)
+
+From FluteV Require Import Model.Recv Proofs.C02MultiObj.
+(* ===== block: C02MultiObj ===== *)
+(* CLEAN CHANNEL, SEVERAL OBJECTS (Proofs/C02MultiObj.v).  One FDT instance (one packet of TOI 0: fdt_pkt_ok, parsed by
+   the oracle to [inst]) announces m No-Code objects with pairwise distinct non-zero TOIs.  Each object [o] is what
+   C01_clean_channel_nocode sends ([tx_obj_ok], unfolded in C01_multi_statements: a configuration FileDesc::new
+   accepts, No-Code, any window >= 1, last transfer or not, E < 2^16; the instance carries its entry; the builder
+   stores it, open and writes succeed, MD5 absent or matching, memory and block-window limits), and [to_wire o] is the
+   wire image of ONE uninterrupted transfer of it by the sender model (wire_pkts).  The packets of the m transfers
+   reach the receiver interleaved in ANY way ([Merge]; the sender's multiplexing of its file list is one such
+   interleaving; no loss, no duplication, each transfer in order).  Then EVERY object is delivered: multi_delivered
+   (C02_multi_delivered_statement: writer (toi,0) got open . writes = content . complete, receive-once bookkeeping per
+   TOI) and the executable C01 predicate holds for its writer with one completed copy.
+   Rests on the isolation theorem C02_isolation: an object's packets change nothing another object delivers.
+   Not covered: the FDT instance after some of the object packets, an FDT instance of several packets, metadata of
+   the several-object FDT document (C10 / C01_session_clean_channel_nocode do it for one File element). *)
+Theorem C01_clean_channel_several_objects : forall rep raptor_src E parse_fdt rcfg now pf id foti d inst objs pkts,
+  fdt_pkt_ok pf id foti d -> parse_fdt d = Some inst -> fdt_live rcfg inst pf now ->
+  NoDup (map to_toi objs) -> Forall (tx_obj_ok E rcfg inst) objs ->
+  Merge (map (to_wire rep raptor_src) objs) pkts ->
+  let '(_, r, c) := recv_run E parse_fdt rcfg recv0 (map (fun p => RvPush p now) (pf :: pkts)) ctx0 in
+  Forall (fun o => multi_delivered rcfg inst (to_content o) (to_toi o) r c
+                   /\ forall m, P_C01_object m (to_content o) 1 [(m, calls_of (to_toi o, 0%nat) (c_log c))] = true) objs.
+Proof. exact clean_channel_multi_delivers. Qed.
+Print Assumptions C01_clean_channel_several_objects.
+
+Theorem C01_multi_statements : forall E rcfg inst o,
+  (tx_obj_ok E rcfg inst o <->
+   let c := to_c o in
+   BlockEnc.c_fec c = NoCode /\ filedesc_accepts c = true /\ BlockEnc.c_tlen c = lenN (to_content o) /\ 0 < BlockEnc.c_tlen c
+   /\ (1 <= BlockEnc.c_window c)%nat /\ BlockEnc.c_e c < 65536 /\ C01Full.oti_matches c (to_oti o) /\ to_toi o <> 0
+   /\ fdt_entry_for (fi_files inst) (fi_oti inst) (to_toi o) (to_oti o) (BlockEnc.c_tlen c) (to_md5 o)
+   /\ writer_accepts E (to_toi o) /\ writes_succeed E (to_toi o) /\ md5_good E (to_content o) (to_md5 o)
+   /\ BlockEnc.c_tlen c <= cf_max_cache rcfg /\ nb_blocks_of (to_oti o) (BlockEnc.c_tlen c) <= 4097).
+Proof. exact tx_obj_statement. Qed.
+Print Assumptions C01_multi_statements.
+
+(* non-vacuity: the 5-byte object of C01_example_wire as TOI 7 (two interleaved blocks, last transfer) and a 3-byte
+   object as TOI 9, each put on the wire by the sender model, multiplexed packet by packet behind the FDT packet:
+   every packet accepted, both TOIs in rv_completed, each writer got its object; and the same by the theorem *)
+Example C01_two_objects_example :
+  map (fun q => (a_toi q, pid_of q, a_payload q, a_close_obj q)) tc_pkts
+  = [(7, (0, 0), [1; 2], false); (9, (0, 0), [10; 20], false); (7, (1, 0), [5], false); (9, (0, 1), [30], true);
+     (7, (0, 1), [3; 4], true)]
+  /\ sess tm_parse (tx_cfg true false) (tx_fdt None :: tc_pkts)
+     = ([POk; POk; POk; POk; POk; POk], [], [9; 7], [],
+        [EvBuilder 7 WStore; EvOpen (7, 0%nat) true; EvBuilder 9 WStore; EvOpen (9, 0%nat) true;
+         EvWrite (9, 0%nat) [10; 20; 30] true; EvComplete (9, 0%nat);
+         EvWrite (7, 0%nat) [1; 2; 3; 4] true; EvWrite (7, 0%nat) [5] true; EvComplete (7, 0%nat)]).
+Proof. exact (conj tc_wire tc_session_computed). Qed.
+
+Example C01_two_objects_by_theorem :
+  let '(_, r, c) := recv_run env_ok tm_parse (tx_cfg true false) recv0 (map (fun p => RvPush p 100%Z) (tx_fdt None :: tc_pkts)) ctx0 in
+  multi_delivered (tx_cfg true false) tm_inst ex_content 7 r c
+  /\ multi_delivered (tx_cfg true false) tm_inst tm_content9 9 r c.
+Proof. exact tc_session_by_theorem. Qed.
+(* ===== end block: C02MultiObj ===== *)
